@@ -21,7 +21,8 @@ CONSTANTS
   MaxSchemas,           \* bound on schema objects
   MaxOps,               \* bound on operations
   MaxInitTests,         \* the base schema starts with 0..MaxInitTests tests (varies the capacity)
-  SwCloneCopiesSlices   \* Pick/Omit/Extend copy the tests / transforms slices (TRUE = intended)
+  SwCloneCopiesSlices,  \* Pick/Omit/Extend copy the tests / transforms slices (TRUE = intended)
+  SwMergeFresh          \* Merge builds its slices from scratch (TRUE = intended; FALSE = appends onto the receiver's)
 
 Keys == {"a", "b", "c"}
 
@@ -112,6 +113,19 @@ AddPT(s) ==
 \* An argument is [str, on, off]: a string argument has on = <<key>>; a map argument has the keys flagged true / false.
 Selected(args) == UNION {{a.on[i] : i \in DOMAIN a.on} : a \in {args[j] : j \in DOMAIN args}}
 
+\* a second, independently written schema (one field, n struct-level tests): an operand for Merge whose slices are
+\* shorter than the receiver's spare capacity
+NewBase(n) ==
+  /\ CanOp /\ Len(sch) < MaxSchemas /\ n \in 0..1
+  /\ LET tests == [i \in 1..n |-> nextId + i]
+         r == AppendAll(arrs, NilHdr, tests)
+         fields == [k \in Keys |-> IF k = "c" THEN nextId ELSE 0]
+     IN /\ arrs' = r.arrs
+        /\ sch' = Append(sch, [fields |-> fields, tests |-> r.hdr, pts |-> NilHdr])
+        /\ intended' = Append(intended, [fields |-> fields, tests |-> tests, pts |-> <<>>])
+  /\ nextId' = nextId + 4 /\ nops' = nops + 1
+  /\ lastop' = [op |-> "base", s |-> 0, o |-> n, keys |-> {}, res |-> Len(sch) + 1, id |-> nextId]
+
 \* cloneShallow + a new field map
 Derive(s, newFields, newIntFields, opname, ks) ==
   /\ CanOp /\ s \in S /\ Len(sch) < MaxSchemas
@@ -148,8 +162,10 @@ Extend(s, ks) ==
 \* Merge(other): fresh slices, v's then other's; other's fields win
 Merge(s, o) ==
   /\ CanOp /\ s \in S /\ o \in S /\ Len(sch) < MaxSchemas
-  /\ LET t == FreshFrom(arrs, Contents(sch[s].tests) \o Contents(sch[o].tests))
-         p == FreshFrom(t.arrs, Contents(sch[s].pts) \o Contents(sch[o].pts))
+  /\ LET t == IF SwMergeFresh THEN FreshFrom(arrs, Contents(sch[s].tests) \o Contents(sch[o].tests))
+              ELSE AppendAll(arrs, sch[s].tests, Contents(sch[o].tests))
+         p == IF SwMergeFresh THEN FreshFrom(t.arrs, Contents(sch[s].pts) \o Contents(sch[o].pts))
+              ELSE AppendAll(t.arrs, sch[s].pts, Contents(sch[o].pts))
      IN /\ arrs' = p.arrs
         /\ sch' = Append(sch, [fields |-> [k \in Keys |-> IF sch[o].fields[k] # 0 THEN sch[o].fields[k] ELSE sch[s].fields[k]],
                                tests |-> t.hdr, pts |-> p.hdr])
@@ -173,6 +189,7 @@ Merge3(s, o, o2) ==
   /\ lastop' = [op |-> "merge3", s |-> s, o |-> o, keys |-> {}, res |-> Len(sch) + 1, id |-> o2]
 
 Next ==
+  \/ \E n \in 0..1 : NewBase(n)
   \/ \E s \in S, o \in S, o2 \in S : Merge3(s, o, o2)
   \/ \E s \in S : AddTest(s) \/ AddPT(s)
   \/ \E s \in S, ks \in SUBSET Keys : Pick(s, ks) \/ Omit(s, ks) \/ Extend(s, ks)
